@@ -159,6 +159,8 @@ func init() {
 		"granularity":          "g",
 		"noinlines":            "noinlines",
 		"showcolumns":          "showcolumns",
+		"tagroot":              "tagroot",
+		"tagleaf":              "tagleaf",
 	}
 
 	def := defaultConfig()
